@@ -82,6 +82,7 @@ func cmdSweep(args []string) {
 	verbose := fs.Bool("v", false, "")
 	showModel := fs.Bool("model", false, "")
 	jobsN := fs.Int("j", 16, "parallel solver processes")
+	withExcepted := fs.Bool("with-excepted", false, "also try the excepted obligations")
 	fs.Parse(args)
 	e, err := LoadEngine(*repo)
 	if err != nil {
@@ -125,6 +126,10 @@ func cmdSweep(args []string) {
 			o := o
 			c := c
 			all = append(all, o)
+			if sp := e.Specs.Funcs[o.Func]; sp != nil && excepted(sp, o) && !*withExcepted {
+				o.Status = "unknown:excepted"
+				continue
+			}
 			jobs = append(jobs, func() {
 				s := c.script(o, false, 0, "")
 				r := discharge(s, time.Duration(*to)*time.Second, *showModel)
